@@ -29,6 +29,22 @@ CHECKS = {
         ],
         "real_vs_stub": {"real": ["winter-utils ReadAdapter, SliceReader, ByteReader provided methods", "std::io::BufReader"], "stub": ["the underlying std::io::Read stream (SimReader: tape-chosen chunking and faults)"]},
     },
+    "C26": {
+        "engine": "engines",
+        "configs": ["serial"],
+        "level": "fault_enumeration",
+        "technique": "deterministic simulation of the byte-stream path: values -> ByteWriter over a short-writing / failing simulated writer -> simulated storage -> transport faults (torn write at a tape-chosen cut, bit flip, byte set, length-prefix edit, invalid bool, invalid UTF-8) -> SliceReader / Cursor / ReadAdapter over a chunked simulated stream; size-value boundaries enumerated",
+        "level_text": "Fault enumeration over the codec path: every primitive and container type the crate serialises (40 concrete instantiations) is written through a writer that accepts tape-chosen prefixes and may fail, stored, damaged by one fault from a fixed catalogue placed inside the encoding, and decoded through three readers. Size-value encodings are enumerated at every 2^k boundary. Faults only count when they land inside the encoding.",
+        "level_note": "The branch of read_usize that rejects values not fitting the platform cannot be reached on a 64-bit host (usize::MAX == u64::MAX) and no 32-bit target can run here: reported as not exercised. Write-side hard errors may panic (documented); the oracle then only requires storage to hold a prefix of the reference encoding. Element counts are bounded (<= 300) so honest encodings stay far below the 64 MiB allocation cap.",
+        "design_ref": "DESIGN.md 3/C26",
+        "rule": "a case = (concrete type out of 40, generated value, writer chunking, reader kind and chunking, one fault kind with its position); distinct = distinct hash of (type, encoding length, fault kind, stream styles); non-trivial = a fault was injected inside the encoding, or the writer/reader needed more than one call.",
+        "assumptions": [
+            "equality of decoded and original value is judged by the types' own PartialEq",
+            "documented length of a size value = vint64: 1 byte per 7 bits up to 56 bits, 9 bytes above",
+            "32-bit usize overflow branch not exercised (64-bit host)",
+        ],
+        "real_vs_stub": {"real": ["winter-utils Serializable/Deserializable impls, ByteWriter/ByteReader provided methods, SliceReader, Cursor impl, ReadAdapter"], "stub": ["std::io::Write sink (SimWriter) and std::io::Read source (SimReader)", "global allocator (poisoning, 64 MiB single-request cap)"]},
+    },
 }
 
 PLANNED = "check planned in DESIGN.md but not built yet in this revision"
